@@ -356,6 +356,12 @@ STUBS_DEFAULT = ['uuid.uuid4 (seeded)', 'store lock (SimLock: observes, never re
 def main(argv):
     if argv and argv[0] == '--worker':
         return worker_main(argv[1])
+    if argv and argv[0] == '--digests':
+        from . import selftest
+        return selftest.digests_main(argv[1])
+    if argv and argv[0] == 'selftest':
+        from . import selftest
+        return selftest.main(argv[1:])
     if not argv:
         print(__doc__)
         return 2
